@@ -17,6 +17,7 @@ property's "distinct FContexts"; it is discharged by C17 (`c17_unique`).
 -/
 import FV.Model.Registry
 import FV.Proofs.Registry
+import FV.Generated.Locks
 
 namespace FV.C01
 open FV.Reg
@@ -116,5 +117,14 @@ example : ∃ s, run (init 1 false [10, 11])
      .readerLookup ⟨99, 7⟩, .recv 1, .unregister 1, .readerLookup ⟨11, 8⟩, .timeout 0, .unregister 0] = some s
     ∧ s.callers = [⟨10, .done .timedOut, []⟩, ⟨11, .done (.ok ⟨11, 5⟩), []⟩] ∧ s.registry = [] := by
   refine ⟨_, rfl, ?_, ?_⟩ <;> decide
+
+/-- **Lock discipline behind the model's atomic steps** (registry), decided by the kernel on facts
+REGENERATED from lib/go's source on every check (harness/locks → FV/Generated/Locks.lean): no function
+calls, while it holds one of these mutexes, anything that (transitively) acquires the same mutex, no
+lexical re-lock, and every path out of a function releases what the function locked. This is what makes a
+critical section ONE step of the model and rules out the self-deadlocks (a second RLock behind a queued
+writer, SendError under SendReply's lock) and leaked locks that would wedge every later request. -/
+theorem c01_lock_discipline :
+    FV.Locks.ok [1] FV.Generated.Locks.mutexTags FV.Generated.Locks.facts = true := by decide +kernel
 
 end FV.C01
